@@ -1,6 +1,6 @@
 module verifharness
 
-go 1.17
+go 1.20
 
 require (
 	github.com/cloudwego/dynamicgo v0.0.0
